@@ -82,7 +82,9 @@ def r2_templates(ctx, prog):
             # whose attributes are compared with the template: those of the key that is being wrapped (the object of the hKey argument), entry by entry
             ho = handle_objects(f)
             kobj = ho[param_name(f, 3)][0][0]
-            per_entry = [c for c in calls(f['body']) if short(c.get('callee')) in ('getAttribute', 'attributeExists') and c.get('recv') is not None and c.get('args') and 'first' in canon(c['args'][0])]
+            keyvars = {d['var']['name'] for n in walk(f['body']) if n.get('k') == 'Decl' for d in n['decls'] if d.get('init') is not None and re.search(r'(\.|->|\)\.)first\b', canon(d['init']))}
+            per_entry = [c for c in calls(f['body']) if short(c.get('callee')) in ('getAttribute', 'attributeExists') and c.get('recv') is not None and c.get('args')
+                         and ('first' in canon(c['args'][0]) or (c['args'][0].get('k') == 'Var' and c['args'][0]['name'] in keyvars))]
             wrong = [c for c in per_entry if canon(c['recv']) != kobj]
             site2 = '%s entries are compared with the wrapped key' % attr
             if not per_entry:
